@@ -38,7 +38,7 @@ func (c09) Meta() fw.Meta {
 
 func (c09) Cases(tier string) int {
 	if tier == "thorough" {
-		return 8000
+		return 80000
 	}
 	return 400
 }
